@@ -19,13 +19,13 @@ let read_room () =
   let tidx = r1 rnat in
   let att = r1 rflt in
   let nb = rnat () in
-  let nus = r2 rflt in
   let thr = rflt () in let eps = rflt () in let eta = rflt () in
   let thres = rflt () in let cut = rflt () in
+  let tseg = rflt () in let tdot = rflt () in let tlag = rflt () in
   { rm_walls = walls; rm_normals = normals; rm_ups = ups; rm_patch_size = ps;
     rm_ref_in = rin; rm_ref_out = rout; rm_tables = tables; rm_tidx = tidx; rm_att = att;
-    rm_nb = nb; rm_nusselt = nus; rm_thr = thr; rm_eps = eps; rm_eta = eta;
-    rm_thres = thres; rm_cut = cut }
+    rm_nb = nb; rm_thr = thr; rm_eps = eps; rm_eta = eta;
+    rm_thres = thres; rm_cut = cut; rm_thr_seg = tseg; rm_thr_dot = tdot; rm_thr_lag = tlag }
 
 let pv ((x, y), z) = pf x; pf y; pf z
 let pb b = pi_ (if b then 1 else 0)
